@@ -151,6 +151,10 @@ func (g *Gen) zeroInitStruct(st *BState, ref string, t types.Type) {
 		if sortOf(f.Type()) == "Opaque" {
 			continue
 		}
+		if k, esc := g.eng.escapingField(t, i); esc {
+			facts = append(facts, fmt.Sprintf("(= (select %s (paddr %s %d)) %s)", g.heapGet(st.heap, g.cellRegion(f.Type())), ref, k, zeroOf(f.Type())))
+			continue
+		}
 		r := g.fieldRegion(t, i)
 		facts = append(facts, fmt.Sprintf("(= (select %s %s) %s)", g.heapGet(st.heap, r), ref, zeroOf(f.Type())))
 	}
@@ -254,6 +258,13 @@ func (g *Gen) doFieldAddr(st *BState, in *ssa.FieldAddr) {
 		g.assert(fmt.Sprintf("(= %s (%s %s))", n, fn, ref))
 		g.imprecise = append(g.imprecise, "embedded struct sub-object "+fn)
 		g.assume(st, fmt.Sprintf("(> %s 0)", n))
+		return
+	}
+	if k, esc := g.eng.escapingField(pt, in.Field); esc {
+		// the address escapes: the field lives in the cell region of its type at paddr(object, k)
+		addr := fmt.Sprintf("(paddr %s %d)", ref, k)
+		g.locs[in] = &Loc{Kind: "cell", Region: g.cellRegion(f.Type()), Ref: addr, Type: f.Type(), Fresh: g.allocs[in.X]}
+		g.vals[in] = addr
 		return
 	}
 	g.locs[in] = &Loc{Kind: "field", Region: g.fieldRegion(pt, in.Field), Ref: ref, Type: f.Type(), Fresh: g.allocs[in.X]}
